@@ -18,6 +18,18 @@ from common import Infra, ndjson
 def run(ctx):
     b = ctx.build("c36")
     quick = ctx.tier == "quick"
+    # sliding-window instance (both tiers): time advances in half-window steps, two real sleeps of 151 s; a pair used
+    # every half window must still be refused once its token has been deleted for a whole window. Runs beside the rest.
+    import threading
+    rs = ctx.tlc_design("periph/AuthnGen", "cfg/AuthnGen.slide.cfg", timeout=600, tag="gen-slide", workers=4)
+    slide = {}
+    def _slide():
+        try:
+            slide["h"] = ctx.harness([b, "replay", rs.path, os.path.join(ctx.work, "dbs"), "half"], timeout=1500)
+        except BaseException as e:      # re-raised in the main thread
+            slide["err"] = e
+    th = threading.Thread(target=_slide)
+    th.start()
     # the design properties are asserted on every transition of the export runs; the separate
     # design instance (with Wait steps, `last` part of the state) is run in the thorough tier
     class _Z:
@@ -49,6 +61,16 @@ def run(ctx):
         trans += rw.generated
         cases += waited["cases"]
         samples += hw["samples"][:1]
+    th.join()
+    if "err" in slide:
+        raise slide["err"]
+    slid = slide["h"]["summary"]
+    if slid.get("cases", 0) < 100 or slid.get("slept_s", 0) < 301.5:
+        raise Infra("sliding-window instance did not run as planned: %s" % slid)
+    states += rs.distinct
+    trans += rs.generated
+    cases += slid["cases"]
+    samples += slide["h"]["samples"][:1]
     # ---- negative control: flip one expected outcome, the driver must report it
     ctl = None
     for doc in r.exports():
@@ -71,7 +93,7 @@ def run(ctx):
         states=states, transitions=trans, traces_validated_against_impl=cases, samples=samples,
         requests_replayed=s["requests"], requests_with_free_outcome=s["requests_any"],
         distinct_request_classes=s["distinct"], violations_by_signature=s.get("violations_by_sig"),
-        wait_instance=waited, negative_control="flipped allow=admit to refuse was reported",
+        wait_instance=waited, sliding_window_instance=slid, negative_control="flipped allow=admit to refuse was reported",
         exhaustive=True,
         rule="every transition of Authn.tla with ids {ab,a%s}, <=%d creates, 4 origin classes x 4 path classes x all "
              "generated credential pairs, replayed with its path; one earlier refused pair remembered as ghost state so that "
@@ -79,6 +101,6 @@ def run(ctx):
     ), assumptions=[
         "authentication enabled (disable=false); /dashboard and /equity static prefixes are not API requests and are not generated",
         "loopback requests without a live token are not constrained by the property (any outcome accepted)",
-        "the 5 minute edge is exercised by one real 301 s sleep in the thorough tier only; all other steps of a behaviour take far less than the window",
+        "the 5 minute edge is exercised in real time: two 151 s sleeps (half-window steps, both tiers) and one 301 s sleep (thorough); all other steps of a behaviour take far less than half the window (checked)",
         "secrets are 32 random bytes: accidental equality of distinct atom sequences is ignored",
     ])
